@@ -25,6 +25,7 @@ type C09Params struct {
 	Late       []*CallSpec `json:"late"`       // started by tasks created together with the others, but parked until the failure is near
 	Pos        int         `json:"pos"`        // fail after this many envelopes were handed to the client's Read
 	WriteFails bool        `json:"write_fails"` // the write side fails too
+	ErrKind    int         `json:"err_kind"`    // which error the failing Read reports (see InjectedErr)
 }
 
 func genC09(g *rand.Rand, tier string) any {
@@ -66,6 +67,7 @@ func genC09(g *rand.Rand, tier string) any {
 	}
 	p.Pos = g.IntN(4*n + 3)
 	p.WriteFails = g.IntN(2) == 0
+	p.ErrKind = g.IntN(6)
 	return p
 }
 
@@ -136,10 +138,11 @@ func execC09(e *Env, pp any) {
 	failEv := e.Log("fault.readfail", "", 0, "")
 	failed = true
 	_ = failed
-	cin.FailRead(ErrInjected)
+	cin.FailRead(InjectedErr(p.ErrKind))
 	e.Note("fault.link.readFail")
+	e.Note(fmt.Sprintf("readerr.kind%d", p.ErrKind%6))
 	if p.WriteFails {
-		cout.FailWrite(ErrInjected)
+		cout.FailWrite(InjectedErr(p.ErrKind + 1))
 		e.Note("fault.link.writeFail")
 	}
 	if inflight > 0 {
@@ -354,10 +357,10 @@ func execC10(e *Env, pp any) {
 	attemptsAtFault := sout.Attempts()
 	switch p.Fault {
 	case 0:
-		sin.FailRead(ErrInjected)
+		sin.FailRead(InjectedErr(p.Pos))
 		e.Note("fault.link.readFail")
 	case 1:
-		sout.FailWrite(ErrInjected)
+		sout.FailWrite(InjectedErr(p.Pos))
 		e.Note("fault.link.writeFail")
 		// a write failure is only noticed when something is written: make the
 		// unary handlers that wait for the scheduler answer
@@ -411,8 +414,23 @@ func execC10(e *Env, pp any) {
 		}
 	}
 	// (4) once the handlers have returned: no goroutine of the connection remains.
-	// Unary handlers whose context was never cancelled cannot return; release them
-	// by ending the run's contexts, then look.
+	// First with the context passed to Serve still alive (nothing of the
+	// connection may depend on the caller cancelling it) ...
+	allReturned := true
+	for _, id := range sim.Order {
+		if r := sim.Calls[id]; r.HInvoked > 0 && !r.HReturned {
+			allReturned = false
+		}
+	}
+	if allReturned {
+		for _, v := range e.W.Snapshot() {
+			if v.Goat && v.Started && !v.Done && strings.HasPrefix(v.Name, sr.Name+"/") {
+				l := v.Name + " @" + v.LastSite
+				e.Violate(prop, "goroutine-leak", leakSite(l), "Serve has returned and every handler has returned, but a goroutine of the connection is still alive (the context passed to Serve is still live): %s", l)
+			}
+		}
+	}
+	// ... then after everything else has been torn down.
 	e.Teardown()
 	for _, l := range e.Leaked() {
 		if strings.HasPrefix(l, sr.Name+"/") {
@@ -995,6 +1013,7 @@ func genC15Break(g *rand.Rand, tier string) any {
 		p.Calls = append(p.Calls, c)
 	}
 	p.Pos = g.IntN(3)
+	p.ErrKind = g.IntN(6)
 	return p
 }
 
